@@ -71,7 +71,7 @@ class EventMonitor(wiring.Component):
 
         super().__init__({
             "src": Out(self._monitor.src.signature),
-            "bus": In(self._mux.bus.signature),
+            "bus": In(self._mux.bus.signature.flip()),
         })
         self.bus.memory_map = self._mux.bus.memory_map
 
@@ -81,7 +81,7 @@ class EventMonitor(wiring.Component):
         m.submodules.mux     = self._mux
 
         connect(m, flipped(self.src), self._monitor.src)
-        connect(m, self.bus, self._mux.bus)
+        connect(m, flipped(self.bus), self._mux.bus)
 
         with m.If(self._enable.element.w_stb):
             m.d.sync += self._monitor.enable.eq(self._enable.element.w_data)
